@@ -6,6 +6,7 @@
 mod dfa;
 mod observe;
 mod replay;
+mod total;
 
 fn main() {
     let args: Vec<String> = std::env::args().skip(1).collect();
@@ -16,6 +17,8 @@ fn main() {
     match cmd.as_str() {
         "observe" => observe::run(&args[1..]),
         "replay" => replay::run(&args[1..]),
+        "total" => total::run(&args[1..]),
+        "total-worker" => total::worker(),
         other => {
             eprintln!("unknown subcommand {}", other);
             std::process::exit(2);
